@@ -19,6 +19,12 @@ REPO = "/repo"
 
 # property -> list of (name, file relative to /repo, old, new)
 MUTANTS = {
+    "C01": [
+        ("kcalc-log-term", "src/phreeqcpp/prep.cpp", "+ l_logk[T_A4] * log10(tempk)", "+ l_logk[T_A4] * log(tempk)"),
+        ("kcalc-a5-term", "src/phreeqcpp/prep.cpp", "+ l_logk[T_A5] / (tempk * tempk)", "+ l_logk[T_A5] / (tempk * 298.15)"),
+        ("kcal-factor", "src/phreeqcpp/read.cpp", "*delta_h *= JOULES_PER_CALORIE;", "*delta_h *= 4.18;"),
+        ("vant-hoff-ref", "src/phreeqcpp/prep.cpp", "- l_logk[delta_h] * (298.15 - tempk) / (LOG_10 * me * 298.15)", "- l_logk[delta_h] * (298.0 - tempk) / (LOG_10 * me * 298.15)"),
+    ],
     "C06": [
         ("getinstance-no-lock", "src/IPhreeqcLib.cpp", "\tmutex_lock(&map_lock);\n\tstd::map<size_t, IPhreeqc*>::iterator it = IPhreeqc::Instances.find(size_t(id));", "\tstd::map<size_t, IPhreeqc*>::iterator it = IPhreeqc::Instances.find(size_t(id));\n\tmutex_lock(&map_lock);"),
         ("static-counter-in-do_run", "src/IPhreeqc.cpp", "\tVERIF_POINT(\"do_run.enter\", this->Index, 0);", "\tVERIF_POINT(\"do_run.enter\", this->Index, 0);\n\tstatic int n_runs_total = 0; if (++n_runs_total < 0) return;"),
